@@ -32,6 +32,8 @@ type Contract struct {
 	Safety   []string // properties that own the generated safety obligations
 	Requires []*Clause
 	Ensures  []*Clause
+	Always   []*Clause // two-state invariants (entry state vs now) that must hold after every call made by the function
+	Steps    []*Clause // guarantee of every single call made by the function (state before that call vs after it)
 	Invs     []*Clause
 	Lets     []letDef
 	Assigns  []string // location expressions; "*" = everything
@@ -108,7 +110,7 @@ var (
 )
 
 var clauseKeywords = map[string]bool{
-	"property": true, "requires": true, "ensures": true, "assigns": true, "loop": true, "let": true,
+	"property": true, "requires": true, "ensures": true, "always": true, "step": true, "assigns": true, "loop": true, "let": true,
 	"trusted": true, "pure": true, "fresh": true, "effects": true, "safety": true, "nosafety": true,
 	"implements": true, "use": true, "rangefunc": true, "yields": true, "spec": true, "ghost": true, "axiom": true, "lemma": true, "reveal": true, "smt": true, "func": true, "extern": true, "iface": true, "fnparam": true, "const": true, "end": true,
 }
@@ -283,6 +285,10 @@ func (sp *Specs) parseContractFile(path string, pkgPath string) error {
 				cur.Requires = append(cur.Requires, cl)
 			case "ensures":
 				cur.Ensures = append(cur.Ensures, cl)
+			case "always":
+				cur.Always = append(cur.Always, cl)
+			case "step":
+				cur.Steps = append(cur.Steps, cl)
 			case "loop":
 				// loop N invariant EXPR
 				lf := strings.Fields(body)
